@@ -159,6 +159,13 @@ type vfC06Model struct {
 	finalName map[string]bool // names at which some branch ended
 }
 
+// vfC06ShapeOtherExc tags the lookups that meet the shape of the finding
+// vfC06SigOtherExc.
+const (
+	vfC06ShapeOtherExc = "shape:wildcard_value_next_to_other_type_exception"
+	vfC06SigOtherExc   = "wildcard-other-type-exception-order"
+)
+
 // Ambiguity tags that make the outcome depend on which of several equally
 // ranked entries is used; the table is then "ambiguous" in the design's sense.
 var vfC06OrderTags = []string{"ambiguous:cname_group", "ambiguous:wildcard_multi_ip", "ambiguous:ip_and_exception"}
@@ -392,6 +399,24 @@ func (m *vfC06Model) step(cur string, hops int, chain []string) {
 	if lv1 > 1 {
 		m.conflict = true
 		m.tags["conflict:wildcard_levels_address"] = true
+	}
+
+	// Shape of the finding "wildcard-other-type-exception-order": the winning
+	// wildcard holds something for the requested type next to the exception of
+	// the other type.
+	if len(g1) > 1 && g1[0].wild {
+		own, other := false, false
+		for _, e := range g1 {
+			switch {
+			case e.kind == vfC06ExcA && m.qtype == vfC06TypeAAAA, e.kind == vfC06ExcAAAA && m.qtype == vfC06TypeA:
+				other = true
+			default:
+				own = true
+			}
+		}
+		if own && other {
+			m.tags[vfC06ShapeOtherExc] = true
+		}
 	}
 
 	o1 := m.evalGroup(g1, canon, true)
